@@ -226,6 +226,34 @@ def h_refuse(sx, cfg):
     sx.check("none-leaves-values", sx.eq(f.array, arr) if False else True)
 
 
+def h_int_dtype(sx, cfg):
+    """integer-typed vectors (concrete; the cast happens inside numpy): the norm is the Euclidean length, not its integer part"""
+    df = lib.load()
+    with sx.native():
+        n = tuple(cfg["n"])
+        nd = len(n)
+        nv = cfg["nvdim"]
+        mesh = df.Mesh(p1=(0.0,) * nd if nd > 1 else 0.0, p2=tuple(float(k) for k in n) if nd > 1 else float(n[0]), n=n if nd > 1 else n[0])
+        base = np.array([[1, 1, 1, 1], [2, -1, 0, 3], [0, 0, 0, 0], [-3, 4, 1, -1]])[:, :nv]
+        vals = np.empty((*n, nv), dtype=np.int64)
+        for t, idx in enumerate(np.ndindex(*n)):
+            vals[idx] = base[t % 4]
+        f = df.Field(mesh, nvdim=nv, value=vals, dtype=np.int64, unit="A/m")
+        want = np.sqrt((vals.astype(float) ** 2).sum(axis=-1))
+        g = f.norm
+        sx.check("int-vectors-norm", g.nvdim == 1 and g.unit == "A/m" and bool(np.allclose(np.asarray(g.array, dtype=float)[..., 0], want, rtol=1e-15, atol=0.0)), got=str(np.asarray(g.array).ravel()[:6]))
+        try:
+            o = f.orientation
+        except Exception as ex:  # noqa: BLE001
+            sx.check("int-vectors-orientation", False, exc=f"{type(ex).__name__}: {str(ex)[:160]}")
+        else:
+            oa = np.asarray(o.array, dtype=float)
+            on = np.sqrt((oa**2).sum(axis=-1))
+            sx.check("int-vectors-orientation", bool(np.allclose(on[want > 0], 1.0, rtol=1e-12)) and bool(np.all(on[want == 0] == 0.0))
+                     and bool(np.allclose(oa * want[..., None], vals, rtol=1e-12, atol=1e-12)))
+        sx.check("operand-untouched", f.array.dtype == np.int64 and bool(np.array_equal(f.array, vals)))
+
+
 def tasks(tier):
     q = tier == "quick"
     t = []
@@ -236,5 +264,7 @@ def tasks(tier):
             t.append(dict(harness="h_set_norm", cfg=dict(n=list(n), nvdim=nv, spec=spec, via="ctor" if (i + len(spec)) % 2 else "setter", shape="n" if spec == "array" and i % 2 else "n1"), limits=big))
         t.append(dict(harness="h_getter", cfg=dict(n=list(n), nvdim=nv), limits=big))
         t.append(dict(harness="h_orientation", cfg=dict(n=list(n), nvdim=nv), limits=big))
+    for n, nv in (((4,), 3), ((2, 2), 2), ((2, 1, 2), 4)):
+        t.append(dict(harness="h_int_dtype", cfg=dict(n=list(n), nvdim=nv)))
     t.append(dict(harness="h_refuse", cfg={}))
     return t
